@@ -194,7 +194,7 @@ func (ss *SpecSet) loadFile(path, pkgPath string) error {
 		case "structural":
 			// structural <kind> <subject>: item, item, ...   (kinds: writers, callers, nocall)
 			cur = nil
-			j := strings.Index(rest, ":")
+			j := strings.Index(rest, ": ") // (a subject may contain "::")
 			if j < 0 {
 				return fmt.Errorf("%s:%d: structural needs 'kind subject: items'", path, ln)
 			}
